@@ -46,8 +46,8 @@ Proof. exact nnx_missing_stream_uses_default. Qed.
 Theorem C09_nnx_split_restore_never_replays : forall s0 ops, NoDup (snd (fold_left sstep ops (Plain (KSeed s0) 0, []))).
 Proof. exact nnx_stream_never_replays. Qed.
 Print Assumptions C09_nnx_split_restore_never_replays.
-Theorem C09_nnx_reseed_restarts : forall nm seed ss k c out, sassoc nm ss = Some (Plain k c) ->
-  rstep (mkR ss out) (RReseed nm seed) = Some (mkR (sset nm (Plain (KSeed seed) 0) ss) out).
+Theorem C09_nnx_reseed_restarts : forall nm seed ss k c out sq, sassoc nm ss = Some (Plain k c) ->
+  rstep (mkR ss out sq) (RReseed nm seed) = Some (mkR (sset nm (Plain (KSeed seed) 0) ss) out sq).
 Proof. exact nnx_reseed_restarts. Qed.
 
 Example C09_example :
